@@ -11,7 +11,7 @@ from . import verusgen
 from .rsx import ExtractionError
 
 VERIF = os.path.dirname(os.path.dirname(os.path.abspath(__file__)))
-TEMPLATES = [os.path.join(VERIF, 'contracts', 'verus', f) for f in ('lib.vt', 'iter.vt', 'drain.vt', 'tail.vt')]
+TEMPLATES = [os.path.join(VERIF, 'contracts', 'verus', f) for f in ('lib.vt', 'extend.vt', 'iter.vt', 'drain.vt', 'tail.vt')]
 RLIMIT = 60
 
 # built-in obligation classes -> properties they serve
@@ -229,6 +229,9 @@ def run(repo_src, workdir, seed=0, extra_templates=None, log_air=True, num_threa
         klass = 'contract'
         if UNDECIDED_MSGS.search(msg):
             klass = 'undecided'
+        elif not tags and any(1 <= sp['line_start'] <= len(lm) and ((lm[sp['line_start'] - 1].get('section') or '') == 'spec' or (lm[sp['line_start'] - 1].get('section') or '').startswith('loop')) for sp in spans):
+            # an untagged (auxiliary) clause of a contract in the template: serves the sequence semantics
+            tags, name = ['C01'], 'auxiliary contract clause (untagged)'
         elif not tags:
             # built-in obligation or precondition of a vstd / std function
             rendered = d.get('rendered', '')
